@@ -398,6 +398,9 @@ fn build(tier: Tier) -> Vec<Scenario> {
             out.push(channel_source_scenario(n, p, if tier == Tier::Quick { 1 } else { 2 }));
         }
     }
+    if tier == Tier::Quick {
+        crate::props::common::deepen(&mut out, &|n| n.starts_with("C15/job/") || n.starts_with("C15/channel-source/n4"));
+    }
     out
 }
 
